@@ -2,13 +2,15 @@ from propdefs.common import *
 
 PROP = {
     "bin": "c10",
-    "coq_targets": ["theories/SSA/C10Check", "theories/SSA/SsaSmall"],
+    "coq_targets": ["theories/SSA/C10Check"],
+    "coq_targets_thorough": ["theories/SSA/SsaSmall"],
     "n": {"quick": 480, "thorough": 12000},
-    "theorems": ["ssa_check_sound", "check_typing_sound", "ssa_step_sim", "ssa_operands_agree", "ssa_model_passes_small"],
+    "theorems": ["ssa_check_sound", "check_typing_sound", "ssa_step_sim", "ssa_operands_agree",
+                 "ssa_total_partial", "ssa_model_erase", "ssa_model_single_def", "ssa_correct_partial"],
     "rule": "random IL functions, one xoshiro256** stream per (seed,index): fixed skeletons (diamond whose join branches on guards, nested "
             "diamonds inside a loop, loop through the entry, self-loops, three-way fans) 5/12 and random CFGs of 1-8 blocks with back edges, "
-            "self-loops and (1/3) blocks unreachable from the entry 7/12; 0-3 instructions per block (assign 68%, load 10%, store 10%, nop 5%, "
-            "intrinsics with/without declared effects 7% in 1/5 of the cases) over 3-6 scalars of widths 1/8/16/32/64; in 1/4 of the cases a scalar "
+            "self-loops and (1/3) blocks unreachable from the entry 7/12; 0-3 instructions per block (assign 60%, load 10%, store 10%, nop 4-20%, "
+            "intrinsics with/without declared effects (1-2 written / read expressions) 16% in 1/3 of the cases; in 1/3 of the cases blocks lose an instruction through remove_instruction (index gaps)) over 3-6 scalars of widths 1/8/16/32/64; in 1/4 of the cases a scalar "
             "`g` is assigned in several blocks and read ONLY by edge guards; 3 initial states per case (values 0..7 or random, 1/12 undefined), 40 steps. "
             "non-trivial = the CFG has a join (a block with >= 2 incoming edges); distinct by hash of the case text",
     "trusted_base": [KERNEL, HARNESS_TB, "Exec/Sem.v + SSA/SemSSA.v as the meaning of `executing` the two forms"],
@@ -16,7 +18,11 @@ PROP = {
     "partial": ["completeness for ALL programs (`ssa_correct_full`: the algorithm's output always passes the validator) is not proved: "
                 "decided per output by running the verified validator in the kernel [V], proved for 74 676 enumerated functions of <= 3 blocks [F], "
                 "and the Gallina model of the algorithm is tied to the Rust output on every generated case [D]",
-                "`ssa_total_partial` (the model never fails on functions with an entry) not attempted"],
+                "what is proved of it [U]: the model returns Ok (under C11's Semi-NCA hypothesis `semi_nca_ok`), its output erases to the input, "
+                "has unique versioned definitions and well-formed structure; ssa_check f f' = remaining f' (uses defined, local consistency of the "
+                "inferred typing = the iterated-dominance-frontier argument, phi arity) is the open rest",
+                "`ssa_total_partial` is conditional on `semi_nca_ok` (unbounded correctness of Semi-NCA is C11's open item)",
+                "`ssa_model_passes_small` [F] is built and checked in the thorough tier only (SSA/SsaSmall.v, coq_targets_thorough)"],
     "level_text": "Unbounded Coq theorem `ssa_check_sound` (closed under the global context): whenever the executable validator accepts (f, f'), "
                   "f' differs from f only in ssa fields and phi nodes, is valid SSA (single assignment; every operand, declared intrinsic read, edge guard "
                   "and phi slot names the most recent definition on every CFG path from the entry; phi arity) and f under Exec/Sem and f' under SSA/SemSSA "
